@@ -62,15 +62,17 @@ type ledgerStats struct {
 	appliedReverted int64
 	distinct        map[string]bool // (entry, sealed, transaction shape, era)
 	blocks          int64
-	hung            map[string]bool // classes with a confirmed hang: not executed again (each costs two deadlines and two goroutines)
+	hung            map[string]bool    // classes seen to be slow or not to return: not executed again (each costs that long again)
+	slow            map[string]float64 // observation: key -> seconds of the slowest call (calls that return, but take more than slowThreshold)
 	skippedHung     int64
+	notDecodable    map[string]int64 // mutants not executed because no codec round-trips the changed transaction
 	unknown         map[string]bool
 	samples         []any
 }
 
 func newLedgerStats() *ledgerStats {
 	return &ledgerStats{perEntry: map[string]int64{}, perEntryOK: map[string]int64{}, perFam: map[string]int64{}, entriesHit: map[int]bool{},
-		accepted: map[string]int64{}, distinct: map[string]bool{}, unknown: map[string]bool{}, hung: map[string]bool{}}
+		accepted: map[string]int64{}, distinct: map[string]bool{}, unknown: map[string]bool{}, hung: map[string]bool{}, slow: map[string]float64{}, notDecodable: map[string]int64{}}
 }
 
 // blockScope families build their own transaction (or change the block); they run once per block.
@@ -169,7 +171,7 @@ func mutateBlock(c *vlib.Ctx, st *ledgerStats, exts []ext, sim *chain.Sim, g *gu
 		if tg.abs != nil {
 			shape = fmt.Sprintf("v%d:%s", tg.abs.Ver, tg.abs.Tag)
 		}
-		if strings.Contains(e.X, "40000") {
+		if strings.Contains(e.X, "16000") {
 			st.heavyMu.Lock()
 			defer st.heavyMu.Unlock()
 		}
@@ -204,6 +206,10 @@ func mutateBlock(c *vlib.Ctx, st *ledgerStats, exts []ext, sim *chain.Sim, g *gu
 				local.notApplicable++
 				return
 			}
+			if (e.Fam == "policy" || e.Fam == "uc") && e.X != "nil-type" && !m.decodable() {
+				local.notDecodable[e.Fam+" "+e.X]++ // no decoder hands this value over: outside the property's quantifier
+				return
+			}
 			if sealed {
 				if !m.keepSigs {
 					m.resign()
@@ -211,6 +217,22 @@ func mutateBlock(c *vlib.Ctx, st *ledgerStats, exts []ext, sim *chain.Sim, g *gu
 				m.reseal()
 			}
 			lo := m.exercise(g, count)
+			if m.slowSec > slowThreshold.Seconds() { // an observation, never a verdict: the call returned
+				site := ledgerSite(m.slowStack)
+				if site == "" {
+					site = m.slowEntry
+				}
+				cls := e.class()
+				if m.class != "" {
+					cls = m.class
+				}
+				st.mu.Lock()
+				if k := "ledger/" + site + "/" + cls; st.slow[k] < m.slowSec {
+					st.slow[k] = m.slowSec
+				}
+				st.hung[e.class()] = true // observed once; every further mutant of the class would cost as long
+				st.mu.Unlock()
+			}
 			local.mutants++
 			local.perFam[e.Fam]++
 			local.entriesHit[ei] = true
@@ -221,17 +243,8 @@ func mutateBlock(c *vlib.Ctx, st *ledgerStats, exts []ext, sim *chain.Sim, g *gu
 			}
 			if lo != nil && lo.O.bad() {
 				kind, site := "panics: "+lo.O.Panic, ledgerSite(lo.O.Stack)
-				if lo.O.TimedOut {
-					// a violation only if it misses the deadline again
-					lo2 := m.exercise(g, func(string, bool) {})
-					if lo2 == nil || !lo2.O.TimedOut {
-						continue
-					}
-					kind = fmt.Sprintf("does not return within %v (twice)", deadline)
-					if site = ledgerSite(lo2.O.Stack); site == "" {
-						site = lo.Entry
-					}
-					lo.O.Stack = lo2.O.Stack
+				if lo.O.TimedOut { // the same execution was given the long deadline and still has not returned
+					kind = fmt.Sprintf("has not returned after %v", longDeadline)
 					st.mu.Lock()
 					st.hung[e.class()] = true
 					st.mu.Unlock()
@@ -370,6 +383,9 @@ func mutateBlock(c *vlib.Ctx, st *ledgerStats, exts []ext, sim *chain.Sim, g *gu
 	}
 	for k := range local.unknown {
 		st.unknown[k] = true
+	}
+	for k, v := range local.notDecodable {
+		st.notDecodable[k] += v
 	}
 	if len(st.samples) < 3 {
 		st.samples = append(st.samples, local.samples...)
